@@ -4,7 +4,11 @@
       O n cellx <contract> <endpoint> <role> <state>               (call with best-effort arguments:
                                                                     the harness claims it must be rejected)
       O n nocall <contract> <endpoint> <role> <state>              (no minimal valid call could be built)
-  from the hand-written access table `Mx.Access.allowed`.  Import-free apart from Core/Driver.
+      O n abi <contract> <endpoint> owner=<0|1> ro=<0|1>           (ABI inventory of the compiled contract)
+  from the hand-written access table `Mx.Access.allowed`, and replays the state-machine histories
+      O n sm perm <contract> <op> <caller> [<target>]   | sm wl <contract> add|remove <caller> <target>
+      O n sm hub <op> <caller> <target>
+  through `PauseSt.step` / `WlSt.step` / `HubSt.step`, printing the whole access state after each op.  Import-free apart from Core/Driver.
 -/
 import MxModel.Core.Access
 import MxModel.Driver.Proto
@@ -38,19 +42,100 @@ def cell (n c e r s : String) : String :=
       else s!"R {n} err"
   | _, _, _ => s!"R {n} err"
 
-def handle (_ : Unit) (line : String) : Unit × Option String :=
-  match words line with
-  | "W" :: rest => ((), some (" ".intercalate ("W" :: rest)))
-  | ["O", n, "cell", c, e, r, s] => ((), some (cell n c e r s))
-  | ["O", n, "cellx", c, e, r, s] => ((), some (cell n c e r s))
+/-- the stateless lines: matrix cells and ABI inventory lines -/
+def handleCell : List String → Option String
+  | ["O", n, "cell", c, e, r, s] => some (cell n c e r s)
+  | ["O", n, "cellx", c, e, r, s] => some (cell n c e r s)
   | ["O", n, "nocall", c, e, _, _] =>
       -- nothing was executed; the endpoint must at least be classified
       match (parseContract c).bind (fun c' => lookup c' e) with
-      | some _ => ((), some s!"R {n} ok nocall | -")
-      | none => ((), some s!"R {n} err")
-  | "O" :: n :: _ => ((), some s!"R {n} err")
-  | _ => ((), none)
+      | some _ => some s!"R {n} ok nocall | -"
+      | none => some s!"R {n} err"
+  | ["O", n, "abi", c, e, ow, ro] =>
+      -- inventory line from the freshly compiled contract: the endpoint must be classified,
+      -- `only_owner` must agree with the table's guard, a read-only endpoint must be a view
+      match (parseContract c).bind (fun c' => lookup c' e) with
+      | some ent =>
+          let okOwner := (ow == "owner=1") == (ent.guard == Guard.scOwner)
+          let okRo := ro != "ro=1" || ent.cls == Class.view
+          if okOwner && okRo then some s!"R {n} ok abi {c}.{e} | {ow} {ro}" else some s!"R {n} err"
+      | none => some s!"R {n} err"
+  | "O" :: n :: _ => some s!"R {n} err"
+  | _ => none
+
+/-- state of a state-machine history: the access modules of ONE evolving deployment -/
+structure DSt where
+  ps : PauseSt
+  wl : WlSt
+  hub : HubSt
+
+def DSt.init (c : Contract) : DSt := ⟨⟨deployed c, .active⟩, wlDeployed, hubDeployed⟩
+
+def showBits (p : Perm) : String :=
+  (if p.owner then "1" else "0") ++ (if p.admin then "1" else "0") ++ (if p.pause then "1" else "0")
+
+def showCState : CState → String
+  | .inactive => "inactive" | .active => "active" | .partialActive => "partial"
+
+def showPerm (s : PauseSt) : String :=
+  "perms=" ++ ",".intercalate (Role.all.map fun r => showBits (s.perm.perms r.addr)) ++ " st=" ++ showCState s.state
+
+def showWl (s : WlSt) : String :=
+  "wl=" ++ String.join (Role.all.map fun r => if r.addr ∈ s.members then "1" else "0")
+
+def showHub (s : HubSt) : String :=
+  "auth=" ++ ",".intercalate ([Role.user, .agent, .owner].map fun u =>
+    String.join (Role.all.map fun r => if s.isWhitelisted u.addr r.addr then "1" else "0"))
+
+def parsePermOp (o : String) (c : Addr) (t : Option Addr) : Option PauseOp :=
+  match o, t with
+  | "addAdmin", some a => some (.perm (.addAdmin c a))
+  | "removeAdmin", some a => some (.perm (.removeAdmin c a))
+  | "addPause", some a => some (.perm (.addPause c a))
+  | "removePause", some a => some (.perm (.removePause c a))
+  | "updateOwnerOrAdmin", some a => some (.perm (.updateOwnerOrAdmin c a))
+  | "pause", _ => some (.pause c)
+  | "resume", _ => some (.resume c)
+  | "noswaps", _ => some (.setActiveNoSwaps c)
+  | _, _ => none
+
+def sm (d : DSt) (n : String) : List String → DSt × String
+  | "perm" :: _c :: o :: caller :: rest =>
+      let t := rest.head?.bind parseRole |>.map Role.addr
+      match (parseRole caller).bind (fun c => parsePermOp o c.addr t) |>.bind d.ps.step with
+      | some ps' => ({ d with ps := ps' }, s!"R {n} ok sm | {showPerm ps'}")
+      | none => (d, s!"R {n} err")
+  | ["wl", _c, o, caller, target] =>
+      let op : Option WlOp := do
+        let c ← parseRole caller
+        let a ← parseRole target
+        if o = "add" then some (.add c.addr a.addr) else if o = "remove" then some (.remove c.addr a.addr) else none
+      match op.bind d.wl.step with
+      | some wl' => ({ d with wl := wl' }, s!"R {n} ok sm | {showWl wl'}")
+      | none => (d, s!"R {n} err")
+  | ["hub", o, caller, target] =>
+      let op : Option HubOp := do
+        let c ← parseRole caller
+        let a ← parseRole target
+        match o with
+        | "whitelist" => some (.whitelist c.addr a.addr)
+        | "removeWhitelist" => some (.removeWhitelist c.addr a.addr)
+        | "blacklist" => some (.blacklist c.addr a.addr)
+        | "removeBlacklist" => some (.removeBlacklist c.addr a.addr)
+        | _ => none
+      match op.bind d.hub.step with
+      | some h' => ({ d with hub := h' }, s!"R {n} ok sm | {showHub h'}")
+      | none => (d, s!"R {n} err")
+  | _ => (d, s!"R {n} err")
+
+def handle (d : DSt) (line : String) : DSt × Option String :=
+  match words line with
+  | "W" :: rest =>
+      let c := ((kv rest "contract").bind parseContract).getD .hub
+      (DSt.init c, some (" ".intercalate ("W" :: rest)))
+  | "O" :: n :: "sm" :: rest => let (d', out) := sm d n rest; (d', some out)
+  | ws => (d, (handleCell ws))
 
 end Mx.AccessDriver
 
-def main : IO Unit := Mx.Proto.mainLoop () Mx.AccessDriver.handle
+def main : IO Unit := Mx.Proto.mainLoop (Mx.AccessDriver.DSt.init .hub) Mx.AccessDriver.handle
